@@ -14,6 +14,8 @@ fn type_pool() -> Vec<Ty> {
     vec![
         u(16), Ty::tup(vec![u(8), u(8)]), Ty::arr(u(8), 2), Ty::Bool, u(1), Ty::either(Ty::unit(), Ty::unit()), Ty::opt(u(8)), Ty::either(Ty::unit(), u(8)), Ty::list(u(8), 2), Ty::tup(vec![u(8)]), u(8),
         u(4), Ty::tup(vec![u(2), u(2)]), Ty::list(u(8), 4), Ty::tup(vec![Ty::opt(Ty::arr(u(8), 2)), Ty::list(u(8), 2)]), u(256), Ty::tup(vec![u(128), u(128)]), Ty::unit(), Ty::arr(u(8), 0), u(32),
+        // values containing several different sum types (hidden sides of different widths)
+        Ty::tup(vec![Ty::either(u(8), u(256)), Ty::either(u(8), u(8))]), Ty::either(Ty::either(u(8), u(16)), u(8)), Ty::tup(vec![Ty::opt(u(16)), Ty::either(Ty::Bool, u(64)), Ty::opt(u(1))]),
     ]
 }
 
